@@ -220,11 +220,56 @@ fn virtual_obs(cp: CP) -> Result<(BTreeSet<String>, u64), String> {
     Ok((set.into_inner(), stats.schedules))
 }
 
+// ------------------------------------------------------------------ the runtime's entry point
+//
+// The controlled executor takes the place of the runtime, so one assumption of the model cannot
+// be explored: that spawned actors run *independently of the future that spawned them*. It is
+// checked here, on the real runtime and through hannibal's own entry point `runtime::block_on`
+// (what `#[hannibal::main]` expands to): the caller's future waits synchronously - it does not
+// yield - for a sign of life from an actor it has just sent a message to. On every supported
+// runtime the sign arrives.
+
+struct Beacon(Option<std::sync::mpsc::Sender<u32>>);
+impl hannibal::Actor for Beacon {}
+struct Light(u32);
+impl hannibal::Message for Light {
+    type Response = ();
+}
+impl hannibal::Handler<Light> for Beacon {
+    async fn handle(&mut self, _: &mut hannibal::Context<Self>, m: Light) {
+        if let Some(tx) = &self.0 {
+            let _ = tx.send(m.0);
+        }
+    }
+}
+
+fn entry_point_obs() -> String {
+    use hannibal::prelude::*;
+    let (tx, rx) = std::sync::mpsc::channel::<u32>();
+    let out = std::sync::Arc::new(std::sync::Mutex::new(String::from("block_on did not run the future")));
+    let out2 = out.clone();
+    let _ = hannibal::runtime::block_on(async move {
+        let addr = Beacon(Some(tx)).spawn();
+        let sent = addr.send(Light(7)).await.is_ok();
+        // a synchronous wait inside the future: the actor must not need this thread
+        let seen = rx.recv_timeout(Duration::from_millis(1500)).ok();
+        *out2.lock().unwrap_or_else(std::sync::PoisonError::into_inner) = format!("sent={sent} actor-answered-while-the-caller-blocked={}", seen == Some(7));
+        drop(addr);
+    });
+    let s = out.lock().unwrap_or_else(std::sync::PoisonError::into_inner).clone();
+    s
+}
+
+const ENTRY_EXPECTED: &str = "sent=true actor-answered-while-the-caller-blocked=true";
+
 pub fn main() -> i32 {
     crate::check::quiet_panics();
     let rt = crate::props::c18::RUNTIME;
     let mut ok = true;
     let mut total = 0;
+    let entry = entry_point_obs();
+    let entry_ok = entry == ENTRY_EXPECTED;
+    println!("conformance[{rt}] runtime::block_on entry point: {entry} {}", if entry_ok { "ok" } else { "DIFFERS FROM THE MODEL'S ASSUMPTION" });
     for cp in ALL {
         let real = real_obs(cp);
         match virtual_obs(cp) {
@@ -248,13 +293,31 @@ pub fn main() -> i32 {
         let mut m = prev.as_object().cloned().unwrap_or_default();
         let n = m.get("real_observations_reproduced").and_then(|v| v.as_u64()).unwrap_or(0) + if ok { ALL.len() as u64 } else { 0 };
         m.insert("real_observations_reproduced".into(), serde_json::json!(n));
-        m.insert(rt.to_string(), serde_json::json!({"programs": ALL.len(), "shim_schedules": total, "ok": ok}));
+        m.insert(rt.to_string(), serde_json::json!({"programs": ALL.len(), "shim_schedules": total, "ok": ok, "entry_point_block_on": entry, "entry_point_ok": entry_ok}));
         let _ = std::fs::write(&f, serde_json::to_string(&serde_json::Value::Object(m)).unwrap());
     }
     println!("conformance[{rt}]: {} programs, {total} shim schedules, {}", ALL.len(), if ok { "all real observations reproduced by the shim" } else { "FAILED" });
-    if ok {
-        0
-    } else {
-        2
+    if !ok {
+        return 2;
     }
+    if !entry_ok {
+        // not a problem of the machinery: the library's entry point behaves differently from
+        // what every other runtime does (and from what the explored model assumes)
+        let _ = std::fs::create_dir_all("/verif/replays");
+        let path = format!("/verif/replays/C18-{rt}-entry-point.json");
+        let _ = std::fs::write(
+            &path,
+            serde_json::to_string_pretty(&serde_json::json!({
+                "property": "C18", "flavour": rt, "key": format!("C18/{rt}/entry-point-block_on"),
+                "program": "hannibal::runtime::block_on(async { let a = Beacon.spawn(); a.send(Light).await; std::sync::mpsc::Receiver::recv_timeout(1.5 s) })",
+                "observed": entry, "expected": ENTRY_EXPECTED,
+                "note": "re-run `./check.sh C18 quick` (runs on the real runtime; no schedule to replay)",
+            }))
+            .unwrap(),
+        );
+        println!("VIOLATION property=C18 replay={path}");
+        println!("  clause=actors-run-independently-of-the-spawning-future key=C18/{rt}/entry-point-block_on :: on {rt}, through hannibal::runtime::block_on: {entry} (expected: {ENTRY_EXPECTED})");
+        return 1;
+    }
+    0
 }
